@@ -903,7 +903,11 @@ func (rn *Runner) Run() {
 		add(mail.WithTLSPolicy(policy), func(c *mail.Client) { c.SetTLSPolicy(policy) })
 	}
 	if cfg.Variant == "sslflag" { // implicit TLS requested, but the transport comes from the caller's dial function
-		opts = append(opts, mail.WithSSL())
+		if rn.T%2 == 0 {
+			opts = append(opts, mail.WithSSL())
+		} else { // the same through the setter
+			post = append(post, func(c *mail.Client) { c.SetSSL(true) })
+		}
 	}
 	if at, ok := authTypes[cfg.Authtype]; ok {
 		add(mail.WithSMTPAuth(at), func(c *mail.Client) { c.SetSMTPAuth(at) })
